@@ -447,6 +447,166 @@ fn deploy_case(ctx: &mut Ctx, w: &mut World, c: &CreateReq, variant: u64) {
     }
 }
 
+// ---------------------------------------------------------------- the ContractCreated clause of the Create validity rules
+#[derive(Clone)]
+enum OutSpec { Other, CC(B32, B32) }
+fn outs_arg(o: &[OutSpec]) -> String {
+    if o.is_empty() { return "-".into(); }
+    o.iter().map(|x| match x { OutSpec::Other => "O".to_string(), OutSpec::CC(i, s) => format!("C:{}:{}", hex(i), hex(s)) }).collect::<Vec<_>>().join(";")
+}
+fn verr_name(e: &ValidityError) -> String {
+    match e {
+        ValidityError::TransactionCreateBytecodeWitnessIndex => "TransactionCreateBytecodeWitnessIndex".into(),
+        ValidityError::TransactionCreateOutputContractCreatedDoesntMatch { .. } => "TransactionCreateOutputContractCreatedDoesntMatch".into(),
+        ValidityError::TransactionCreateOutputContractCreatedMultiple { .. } => "TransactionCreateOutputContractCreatedMultiple".into(),
+        ValidityError::TransactionOutputDoesntContainContractCreated => "TransactionOutputDoesntContainContractCreated".into(),
+        e => format!("other:{e:?}"),
+    }
+}
+fn cerr_name(e: &CheckError) -> String { match e { CheckError::Validity(v) => verr_name(v), e => format!("other:{e:?}") } }
+
+/// A Create with EXPLICIT outputs (the announced contract id / state root are chosen by the generator, not by a
+/// builder), judged by `check`, `into_checked_basic` and `into_checked`, and deployed when accepted.
+/// ORACLE (sha2 only): accepted ⇒ exactly one ContractCreated output, its contract_id = H("FUEL"‖salt‖code root‖state root),
+/// its state_root = sparse root of the slots, and after deployment the code sits under the ANNOUNCED id;
+/// a transaction announcing exactly those values is accepted; the error otherwise is the one the rules name.
+fn deployo_case(ctx: &mut Ctx, w: &mut World, c: &CreateReq, outs: &[OutSpec], kind: &str, via_transact: bool) {
+    let req = format!("deployo {} {}", c.args(), outs_arg(outs));
+    let want = c.want();
+    let cp = w.cp.clone();
+    let ipar = w.ip();
+    let storage = w.storage.clone();
+    let r = ctx.guard(|| -> (String, String, String, Option<Result<MemoryStorage, String>>) {
+        let secret = SecretKey::try_from(&[0x11u8; 32][..]).expect("valid secret key");
+        let mut tx: Create = c.tx();
+        let sig_idx = tx.witnesses().len() as u16;
+        tx.witnesses_mut().push(Witness::default());
+        tx.add_unsigned_coin_input(UtxoId::new(Bytes32::new([3; 32]), 0), &secret.public_key(), u32::MAX as u64, AssetId::zeroed(), TxPointer::default(), sig_idx);
+        for (i, o) in outs.iter().enumerate() {
+            tx.outputs_mut().push(match o {
+                OutSpec::Other => Output::coin(Address::new([i as u8 + 1; 32]), 1 + i as u64, AssetId::zeroed()),
+                OutSpec::CC(id, sr) => Output::contract_created(ContractId::new(*id), Bytes32::new(*sr)),
+            });
+        }
+        tx.sign_inputs(&secret, &cp.chain_id());
+        // (1) FormatValidityChecks::check on the precomputed transaction
+        let v1 = { let mut t = tx.clone(); match t.precompute(&cp.chain_id()) { Err(e) => verr_name(&e), Ok(()) => match t.check(Default::default(), &cp) { Ok(()) => "accept".into(), Err(e) => verr_name(&e) } } };
+        // (2) into_checked_basic, (3) into_checked
+        let v2 = match tx.clone().into_checked_basic(Default::default(), &cp) { Ok(_) => "accept".to_string(), Err(e) => cerr_name(&e) };
+        let (v3, dep) = match tx.into_checked(Default::default(), &cp) {
+            Err(e) => (cerr_name(&e), None),
+            Ok(checked) => {
+                let d = if via_transact {
+                    let mut t = Transactor::<_, _, Create>::new(MemoryInstance::new(), storage, ipar);
+                    t.transact(checked);
+                    if let Some(e) = t.error() { Err(err_name(e)) } else { let st: &MemoryStorage = t.as_ref(); Ok(st.clone()) }
+                } else {
+                    let mut t = Transactor::<_, _, Script>::new(MemoryInstance::new(), storage, ipar);
+                    match t.deploy(checked) { Err(e) => Err(err_name(&e)), Ok(_) => { let st: &MemoryStorage = t.as_ref(); Ok(st.clone()) } }
+                };
+                ("accept".to_string(), Some(d))
+            }
+        };
+        (v1, v2, v3, dep)
+    });
+    match r {
+        Err(p) => { ctx.oracle_fail("panic-create-check", &req, &p); ctx.emit(&req, "panic"); }
+        Ok((v1, v2, v3, dep)) => {
+            let ccs: Vec<(B32, B32)> = outs.iter().filter_map(|o| match o { OutSpec::CC(i, s) => Some((*i, *s)), _ => None }).collect();
+            // the verdict the rules name, computed from the oracle's values
+            let expect = match want {
+                None => "TransactionCreateBytecodeWitnessIndex".to_string(),
+                Some((id, _, sroot)) => {
+                    let mut seen = false; let mut e = String::new();
+                    for (i, s) in &ccs {
+                        if *i != id || *s != sroot { e = "TransactionCreateOutputContractCreatedDoesntMatch".into(); break; }
+                        if seen { e = "TransactionCreateOutputContractCreatedMultiple".into(); break; }
+                        seen = true;
+                    }
+                    if !e.is_empty() { e } else if !seen { "TransactionOutputDoesntContainContractCreated".into() } else { "accept".into() }
+                }
+            };
+            if v1 != v2 || v2 != v3 { ctx.oracle_fail("create-verdicts-disagree", &req, &format!("check {v1} / into_checked_basic {v2} / into_checked {v3}")); }
+            for (name, v) in [("check", &v1), ("into_checked_basic", &v2), ("into_checked", &v3)] {
+                if v == "accept" {
+                    match want {
+                        None => ctx.oracle_fail("create-accepted-with-invalid-bytecode-index", &req, name),
+                        Some((id, _, sroot)) => {
+                            if ccs.len() != 1 { ctx.oracle_fail("create-accepted-without-single-contract-created", &req, &format!("{name}: {} ContractCreated outputs", ccs.len())); }
+                            for (i, s) in &ccs {
+                                if *i != id { ctx.oracle_fail("create-accepted-with-wrong-announced-contract-id", &req, &format!("{name}: announced {} formula {} (kind {kind})", hex(i), hex(&id))); }
+                                if *s != sroot { ctx.oracle_fail("create-accepted-with-wrong-announced-state-root", &req, &format!("{name}: announced {} sparse root of the slots {} (kind {kind})", hex(s), hex(&sroot))); }
+                            }
+                        }
+                    }
+                } else if expect == "accept" {
+                    ctx.oracle_fail("create-rejected-with-correct-announcement", &req, &format!("{name}: {v}"));
+                } else if *v != expect {
+                    ctx.oracle_fail("create-verdict-differs-from-rules", &req, &format!("{name}: {v}, rules: {expect}"));
+                }
+            }
+            let verdict = if v1 == v2 && v2 == v3 { if v3 == "accept" { v3.clone() } else { format!("err:{v3}") } } else { format!("{v1}/{v2}/{v3}") };
+            let deploy = match dep {
+                None => "-".to_string(),
+                Some(Err(name)) => {
+                    let already = want.map(|x| w.deployed.iter().any(|d| d.0 == x.0)).unwrap_or(false);
+                    if !(already && name == "ContractIdAlreadyDeployed") { ctx.oracle_fail("deploy-outcome-differs", &req, &format!("accepted Create failed to deploy: {name}")); }
+                    format!("err:{name}")
+                }
+                Some(Ok(st)) => {
+                    let code = c.code().unwrap_or_default();
+                    let announced = ccs.first().map(|x| x.0).unwrap_or([0; 32]);
+                    let stored: Option<Vec<u8>> = st.storage_contract(&ContractId::new(announced)).ok().flatten().map(|c| c.as_ref().as_ref().to_vec());
+                    if stored.as_deref() != Some(&code[..]) { ctx.oracle_fail("deployed-code-not-under-announced-id", &req, &format!("announced {} holds {:?} bytes, bytecode {} bytes (kind {kind})", hex(&announced), stored.as_ref().map(|s| s.len()), code.len())); }
+                    // for the line: where the code actually went = the formula id
+                    let fid = want.map(|x| x.0).unwrap_or([0; 32]);
+                    let s2: Vec<u8> = st.storage_contract(&ContractId::new(fid)).ok().flatten().map(|c| c.as_ref().as_ref().to_vec()).unwrap_or_default();
+                    let n_state = st.all_contract_state().filter(|(k, _)| *k.contract_id() == ContractId::new(fid)).count();
+                    if w.deployed.iter().any(|d| d.0 == fid) { ctx.oracle_fail("deploy-outcome-differs", &req, "redeployment of an existing id succeeded"); }
+                    w.storage = st;
+                    w.deployed.push((fid, code, c.slots.clone()));
+                    format!("ok {} {}:{} {}", hex(&fid), s2.len(), hex(&br::sha(&[&s2])), n_state)
+                }
+            };
+            ctx.emit(&req, &format!("{verdict} {deploy}"));
+            ctx.count(&format!("deployo-{kind}-{}", if v3 == "accept" { "accept" } else { "reject" }));
+        }
+    }
+}
+
+const OUT_KINDS: &[&str] = &["correct", "id-first-byte", "id-last-byte", "id-random-byte", "id-other-salt", "id-other-contract", "sroot-first-byte",
+    "sroot-last-byte", "sroot-random-byte", "sroot-default-or-foreign", "both-wrong", "two-correct", "none", "swapped", "id-wrong-second-output-correct"];
+
+/// outputs for a Create: the ContractCreated output(s) per `kind`, surrounded by 0..2 other outputs
+fn make_outs(ctx: &mut Ctx, w: &World, c: &CreateReq, kind: &str) -> Vec<OutSpec> {
+    let (id, root, sroot) = c.want().unwrap_or((ctx.rng.arr32(), ctx.rng.arr32(), ctx.rng.arr32()));
+    let flip = |x: &B32, i: usize, m: u8| { let mut y = *x; y[i] ^= m; y };
+    let rb = ctx.rng.below(32) as usize; let rm = 1u8 << ctx.rng.below(8);
+    let other_sroot = if c.slots.is_empty() { ref_state_root(&[([5; 32], [6; 32])]) } else { [0u8; 32] };
+    let ccs: Vec<OutSpec> = match kind {
+        "correct" => vec![OutSpec::CC(id, sroot)],
+        "id-first-byte" => vec![OutSpec::CC(flip(&id, 0, 0x80), sroot)],
+        "id-last-byte" => vec![OutSpec::CC(flip(&id, 31, 1), sroot)],
+        "id-random-byte" => vec![OutSpec::CC(flip(&id, rb, rm), sroot)],
+        "id-other-salt" => vec![OutSpec::CC(ref_id(&flip(&c.salt, 31, 1), &root, &sroot), sroot)],
+        "id-other-contract" => vec![OutSpec::CC(w.deployed.iter().map(|d| d.0).find(|x| *x != id).unwrap_or(ref_id(&c.salt, &sroot, &root)), sroot)],
+        "sroot-first-byte" => vec![OutSpec::CC(id, flip(&sroot, 0, 0x80))],
+        "sroot-last-byte" => vec![OutSpec::CC(id, flip(&sroot, 31, 1))],
+        "sroot-random-byte" => vec![OutSpec::CC(id, flip(&sroot, rb, rm))],
+        "sroot-default-or-foreign" => vec![OutSpec::CC(id, other_sroot)],
+        "both-wrong" => vec![OutSpec::CC(flip(&id, rb, rm), flip(&sroot, 31 - rb, rm))],
+        "two-correct" => vec![OutSpec::CC(id, sroot), OutSpec::CC(id, sroot)],
+        "none" => vec![],
+        "swapped" => vec![OutSpec::CC(sroot, id)],
+        _ => vec![OutSpec::CC(flip(&id, rb, rm), sroot), OutSpec::CC(id, sroot)],
+    };
+    let mut outs = vec![];
+    for _ in 0..ctx.rng.below(3) { outs.push(OutSpec::Other); }
+    for (i, x) in ccs.into_iter().enumerate() { if i > 0 && ctx.rng.chance(1, 2) { outs.push(OutSpec::Other); } outs.push(x); }
+    for _ in 0..ctx.rng.below(2) { outs.push(OutSpec::Other); }
+    outs
+}
+
 fn croo_script() -> Vec<u8> {
     let ins: Vec<Instruction> = vec![
         op::gtf_args(0x10, 0x00, GTFArgs::ScriptData),
@@ -732,6 +892,30 @@ pub fn run(ctx: &mut Ctx) {
         let unknown = ctx.rng.arr32();
         contract_case(ctx, &w, unknown);
         if let Some((id, _)) = deployed.first() { croo_case(ctx, &w, &[*id], unknown); }
+    }
+    // ---- the ContractCreated clause: every kind of announcement, empty and non-empty slot lists, both deployment paths
+    {
+        let mut round = 0u64;
+        for _ in 0..ctx.n(30, 300) {
+            ctx.emit("new", "ok");
+            let mut w = World::new();
+            // something already deployed, so that a foreign but existing contract id can be announced
+            let first = create_req(ctx, 2, true);
+            let o = make_outs(ctx, &w, &first, "correct");
+            deployo_case(ctx, &mut w, &first, &o, "correct", false);
+            for kind in OUT_KINDS {
+                round += 1;
+                let n = if round % 2 == 0 { 0 } else { 1 + ctx.rng.below(4) as usize };
+                let mut c = create_req(ctx, n, true);
+                if ctx.rng.chance(1, 25) { c.widx = c.wits.len() as u16 + 1; }
+                let o = make_outs(ctx, &w, &c, kind);
+                let via = ctx.rng.chance(1, 3);
+                deployo_case(ctx, &mut w, &c, &o, kind, via);
+            }
+            // read back / CROO on what was deployed through this path
+            let ids: Vec<B32> = w.deployed.iter().map(|d| d.0).collect();
+            for id in ids.iter().take(3) { contract_case(ctx, &w, *id); croo_case(ctx, &w, &ids, *id); }
+        }
     }
     // ---- a few large deployments (multi-chunk code) with CROO
     for k in 0..ctx.n(7, 28) as usize {
